@@ -150,7 +150,7 @@ func c10One(c *core.Ctx, cs srcCase) {
 func c10Run(c *core.Ctx) {
 	level := 2
 	if c.Thorough() {
-		level = 4
+		level = 5
 	}
 	seen := map[string]bool{}
 	for _, fam := range []string{"php7", "php5"} {
@@ -159,7 +159,7 @@ func c10Run(c *core.Ctx) {
 			if !it.ScanOK || !it.Valid {
 				continue
 			}
-			deep := level == 2 || countSub(it.Why, "child") < 2
+			deep := true
 			forDeviations(it, deep, deep, func(src, why string) {
 				if seen[src] {
 					return
